@@ -2,6 +2,7 @@ import KcpVerif.Model.Kcp
 import KcpVerif.Lemmas.C01Ops
 import KcpVerif.Lemmas.C01Sys
 import KcpVerif.Lemmas.KcpAcc
+import KcpVerif.Lemmas.KcpFrg
 /-!
 C01 — reliable ordered stream: the reader sees a prefix of what was written.
 Protocol-core part (`C01_core`, DESIGN.md 7.1 items 1–4) on the model `Model/Kcp.lean` of kcp.go.
@@ -225,5 +226,50 @@ theorem C01_send_refusal_takes_bytes :
       (send k buf).k.snd_queue ≠ k.snd_queue := by
   refine ⟨{ Kcp.new 7 with stream := 1, mss := 1, snd_queue := [{ data := [] }] }, List.replicate 257 0, ?_, ?_, ?_⟩
   all_goals decide
+
+/-- **Sender's fragment countdown.**  In every reachable state (any operations, any arguments, both
+modes) the fragment numbers of `L ++ snd_queue` are a concatenation of countdowns `c−1, …, 1, 0` with
+`c ≤ 255` (never 255; a non-zero number is followed by its predecessor) ending on a message boundary;
+hence for every content function `G` agreeing with the log and every `n ≤ |L|` the receiver's premise
+`FrgOk G sn0 n` of `C01_msg_boundaries` holds. -/
+theorem C01_send_frgOk (k0 : Kcp) (hf : Fresh k0) (ops : List Op) :
+    CountOkF (pendFrgs (run { k := k0 } ops)) ∧
+    ∀ (G : U32 → Content), Agree G k0.snd_nxt (run { k := k0 } ops).log →
+      ∀ n, n ≤ (run { k := k0 } ops).log.length → FrgOk G k0.snd_nxt n := by
+  have h := run_countOk ops _ (fresh_countOk k0 hf)
+  exact ⟨h, fun G hG n hn => frgOk_of_log h G _ hG n hn⟩
+
+/-- **Full message-mode statement (NOT proved).**  In message mode (`stream = 0` at the writer) the
+messages `B`'s reader has been given are a prefix of the messages `A.Send` accepted, each with its
+original boundaries.  Proved so far: the receiver half (`C01_msg_boundaries`, under `FrgOk`) and the
+byte-level statement `C01_core` (the concatenation of the messages read is a prefix of the
+concatenation of the messages accepted), and the sender's countdown invariant (`C01_send_frgOk`).
+Missing: `n ≤ |L|` for the reader in the composed system (the reader cannot have accepted a sequence
+number the writer has not numbered yet) and the grouping lemma (`accM` = grouping of `L ++ snd_queue`). -/
+def C01_core_msg_full : Prop :=
+  ∀ (kA kB : Kcp), Fresh kA → Fresh kB → kB.rcv_nxt = kA.snd_nxt → 0 < kA.mss.toNat → kA.stream = 0 →
+    ∀ ops : List SOp,
+      (srun ⟨{ k := kA }, { k := kB }⟩ ops).A.log.length ≤ 2 ^ 32 →
+      (srun ⟨{ k := kA }, { k := kB }⟩ ops).B.dl.length ≤ 2 ^ 32 →
+      (srun ⟨{ k := kA }, { k := kB }⟩ ops).B.got <+: (srun ⟨{ k := kA }, { k := kB }⟩ ops).A.accM
+
+/-! ### non-vacuity: a concrete closed run with reordering, duplication, a retransmission -/
+
+/-- `A` sends two messages, flushes (one datagram with both segments), the network delivers it
+twice, `B` reads; `A` retransmits after its RTO, the network delivers the retransmission too -/
+def C01_exSys : List SOp :=
+  [.a (.noDelay 1 10 2 1), .a (.send [1, 2, 3]), .a (.send [4]), .a (.flush true 0), .dlv 1 true false 0,
+   .dlv 0 true false 0, .dlv 0 true true 1, .b (.recv 100), .a (.update 300), .dlv 1 true false 301,
+   .b (.recv 100), .b (.update 400)]
+
+set_option maxRecDepth 1000000 in
+example : Fresh (Kcp.new 7) ∧ (Kcp.new 7).rcv_nxt = (Kcp.new 7).snd_nxt ∧ 0 < (Kcp.new 7).mss.toNat ∧
+    (srun ⟨{ k := Kcp.new 7 }, { k := Kcp.new 7 }⟩ C01_exSys).A.log = [(0, [1, 2, 3]), (0, [4])] ∧
+    (srun ⟨{ k := Kcp.new 7 }, { k := Kcp.new 7 }⟩ C01_exSys).A.wire.length = 2 ∧
+    (srun ⟨{ k := Kcp.new 7 }, { k := Kcp.new 7 }⟩ C01_exSys).A.accB = [1, 2, 3, 4] ∧
+    (srun ⟨{ k := Kcp.new 7 }, { k := Kcp.new 7 }⟩ C01_exSys).B.got = [[1, 2, 3], [4]] ∧
+    (srun ⟨{ k := Kcp.new 7 }, { k := Kcp.new 7 }⟩ C01_exSys).A.dead = false ∧
+    (srun ⟨{ k := Kcp.new 7 }, { k := Kcp.new 7 }⟩ C01_exSys).B.dead = false := by
+  refine ⟨fresh_new 7, by decide, by decide, by decide, by decide, by decide, by decide, by decide, by decide⟩
 
 end KcpVerif.Props
